@@ -6,6 +6,7 @@ import (
 	"encoding/json"
 	"errors"
 	"fmt"
+	"google.golang.org/grpc/codes"
 	"os"
 	"path/filepath"
 	"regexp"
@@ -422,6 +423,15 @@ func (w *CfgWorld) Init(s *kernel.Sim) {
 	}
 	if t.Chance(3, 5) {
 		pt := other[t.Intn(len(other))]
+		if nBE > 1 && nLogs > 1 && t.Chance(1, 6) {
+			// two logs of one process with the same tree id on different backends: legal, and the case in which
+			// anything the process keys by tree id alone mixes up two logs
+			for _, o := range other {
+				if o.name == "treeid.same-on-other-backend" {
+					pt = o
+				}
+			}
+		}
 		if applyOne(pt) {
 			w.breaking = pt.name
 			if pt.verdict != "harmless" {
@@ -684,9 +694,28 @@ func (w *CfgWorld) bootAndLive(s *kernel.Sim) {
 			w.reps = []*replica{{inst: b.inst}}
 			w.be = b.be
 			w.prefix = b.prefix
+			// the backend may fail this very request (any gRPC code, with a bias towards the transient ones a front
+			// end is tempted to paper over): the request may then fail, but what a 200 says is judged as always
+			injected := ""
+			w.auditDecide = nil
+			if t.Chance(1, 4) {
+				code := codesAll[t.Intn(len(codesAll))]
+				if t.Chance(1, 2) {
+					code = []codes.Code{codes.Unavailable, codes.DeadlineExceeded, codes.ResourceExhausted, codes.Canceled}[t.Intn(4)]
+				}
+				w.auditDecide = func(p *kernel.Parked) kernel.Decision {
+					injected = code.String()
+					s.Fault("rpc.status")
+					return kernel.Decision{Kind: "rpc.status", N: int64(code)}
+				}
+			}
 			op := w.auditGet("get-sth", "/ct/v1/get-sth", "", 0, 0, nil)
+			w.auditDecide = nil
 			if s.Violated() {
 				return
+			}
+			if injected != "" {
+				s.Probe(fmt.Sprintf("history.backend-fault.status=%dxx", op.Status/100))
 			}
 			var j sthJSON
 			if op.Status == 200 {
@@ -706,11 +735,13 @@ func (w *CfgWorld) bootAndLive(s *kernel.Sim) {
 			case b.cfg.IsMirror:
 				if op.Status == 200 {
 					var atCall uint64
-					if len(op.Calls) > 0 {
+					if len(op.Calls) > 0 && op.Calls[0].Err == nil {
 						atCall = op.Calls[0].RootSize
+					} else {
+						atCall = b.be.Log.RootSize // no root was handed over (failed or absent backend call): the tree as it stands is the bound
 					}
 					if j.TreeSize > atCall {
-						s.Violate("mirror-sth-ahead", "get-sth", "mirror %q served an STH of size %d with a backend tree of %d (storage was asked for maxTreeSize=%d)", b.cfg.Prefix, j.TreeSize, atCall, b.store.lastMax)
+						s.Violate("mirror-sth-ahead", "get-sth", "mirror %q served an STH of size %d with a backend tree of %d (storage was asked for maxTreeSize=%d; backend fault on this request: %q)", b.cfg.Prefix, j.TreeSize, atCall, b.store.lastMax, injected)
 						return
 					}
 					s.Probe("mirror.served")
